@@ -5,7 +5,7 @@
 import Masscanned.Model.Basic
 namespace Masscanned
 
-/-- a parsed question: the raw name bytes (up to and including the first 0x00), type, class -/
+/-- a parsed question: the raw name bytes (labels up to and including the root label), type, class -/
 structure DnsQ where
   name : Bytes
   qtype : Nat
@@ -17,14 +17,19 @@ def dnsTypeNorm (t : Nat) : Nat := if t = 1 then 1 else if t = 16 then 16 else 0
 /-- same for the class (IN=1, CH=3, anything else 0) -/
 def dnsClassNorm (c : Nat) : Nat := if c = 1 then 1 else if c = 3 then 3 else 0
 
-/-- read one question from the front of `d`: name up to the first 0x00, then 4 bytes -/
-def dnsReadQ : Bytes → Bytes → Option (DnsQ × Bytes)
-  | _, [] => none
-  | acc, b :: t =>
-    if b = 0 then
+/-- read one question from the front of `d`: the name label by label (a length octet, then that many octets of
+    any value; the name ends at a zero length octet), then 4 bytes.  `left` = octets of the current label still
+    to be read (`DNSQuery::_label_left`). -/
+def dnsReadQL : Nat → Bytes → Bytes → Option (DnsQ × Bytes)
+  | _, _, [] => none
+  | left, acc, b :: t =>
+    if left > 0 then dnsReadQL (left - 1) (acc ++ [b]) t
+    else if b = 0 then
       if t.length < 4 then none
       else some ({ name := acc ++ [0], qtype := rdBE (t.take 2), qclass := rdBE (slice t 2 2) }, t.drop 4)
-    else dnsReadQ (acc ++ [b]) t
+    else dnsReadQL b.toNat (acc ++ [b]) t
+
+def dnsReadQ (acc d : Bytes) : Option (DnsQ × Bytes) := dnsReadQL 0 acc d
 
 def dnsReadQs : Nat → Bytes → Option (List DnsQ × Bytes)
   | 0, d => some ([], d)
@@ -36,17 +41,20 @@ def dnsReadQs : Nat → Bytes → Option (List DnsQ × Bytes)
       | none => none
       | some (qs, rest') => some (q :: qs, rest')
 
-/-- skip one resource record: name up to 0x00, type, class, ttl, rdlength, rdata -/
-def dnsSkipRR : Bytes → Option Bytes
-  | [] => none
-  | b :: t =>
-    if b = 0 then
+/-- skip one resource record: name label by label (as in `dnsReadQL`), type, class, ttl, rdlength, rdata -/
+def dnsSkipRRL : Nat → Bytes → Option Bytes
+  | _, [] => none
+  | left, b :: t =>
+    if left > 0 then dnsSkipRRL (left - 1) t
+    else if b = 0 then
       if t.length < 10 then none
       else
         let rdlen := rdBE (slice t 8 2)
         let rest := t.drop 10
         if rest.length < rdlen then none else some (rest.drop rdlen)
-    else dnsSkipRR t
+    else dnsSkipRRL b.toNat t
+
+def dnsSkipRR (d : Bytes) : Option Bytes := dnsSkipRRL 0 d
 
 def dnsSkipRRs : Nat → Bytes → Option Bytes
   | 0, d => some d
